@@ -503,7 +503,9 @@ theorem inv1_helperStep (c : Committee) (s : Node) (d : Digest) (o : Nat) (h : I
       have hbk := h.blocks b (by simp [Node.pendingBlocks]; right; right; right; simpa using hm)
       constructor <;> simp [Node.pendingBlocks] <;> grind [Inv1, Node.pendingBlocks]
     · exact h
-    · exact h
+    · split
+      · exact h
+      · exact inv1_fail _ _ h
 
 theorem mem_removeAt {α : Type} (l : List α) (i : Nat) (x : α) (h : x ∈ removeAt l i) : x ∈ l := by
   unfold removeAt at h
